@@ -21,6 +21,16 @@ def _loop_heads(cfg):
     return [n.id for n in cfg.nodes if (n.kind == "join" and isinstance(n.ast, ast.While)) or n.kind == "loop"]
 
 
+def n_awaited(node, call):
+    """the call is the operand of an await evaluated at this CFG node"""
+    return any(isinstance(x, ast.Await) and x.value is call for x in node.walk())
+
+
+def canon_guard(g):
+    from sa.cfg import canon_set
+    return canon_set(g)
+
+
 def _deltas(fn, attr_suffix):
     """[(stmt, target_text, sign, amount_text)] for `<x>.<attr> += / -= amount`."""
     out = []
@@ -240,6 +250,70 @@ def check(chk):
            g.where(), detail=str(got), construct=g.ident, text="pf missing balls")
     chk.floor("DELTA-1", 13)
 
+    # ------------------------------------------------------------- LOST-1: a lost ball is handed over exactly once, on every path
+    bd = repo.cls(BD, "BallDevice")
+    MT = "self.config['ball_missing_target']"
+    for name, who, ask in (("lost_idle_ball", "self", None), ("lost_ejected_ball", "target", "eject"), ("lost_incoming_ball", "self", "request_ball")):
+        f = bd.methods[name]
+        chk.analysed(f)
+        cfg = f.cfg()
+        adds = [(n, c) for n, c in cfg.calls_named("add_missing_balls")]
+        ok = len(adds) == 1 and src(adds[0][1].func.value) == MT and [src(a) for a in adds[0][1].args] == ["1"]
+        chk.ob("LOST-1", "%s hands exactly one ball to the ball_missing_target" % name, ok, f.where(), detail=str([src(c) for _, c in adds]),
+               construct=f.ident, text=name + " hand-over")
+        rep = [(n, c) for n, c in cfg.calls_named("_balls_missing")]
+        ok2 = len(rep) == 1 and [src(a) for a in rep[0][1].args] == ["1"] and n_awaited(rep[0][0], rep[0][1])
+        chk.ob("LOST-1", "%s reports exactly one missing ball (awaited)" % name, ok2, f.where(), construct=f.ident, text=name + " report")
+        if ok and ok2:
+            exits = [n.id for n in cfg.nodes if n.kind == "exit"]
+            w = cfg.path_avoiding(cfg.entry.id, exits, [adds[0][0].id]) or cfg.path_avoiding(cfg.entry.id, exits, [rep[0][0].id])
+            chk.ob("LOST-1", "every path of %s that does not raise hands the ball over and reports it" % name, w is None, f.where(),
+                   path=cfg.fmt_path(w, BD) if w else None, construct=f.ident, text=name + " all paths")
+        ds = _deltas(f.node, ".available_balls")
+        want = ("%s.available_balls" % who, -1, "1")
+        ok = len(ds) == 1 and ds[0][1:] == want
+        chk.ob("LOST-1", "%s takes exactly one available ball from %s" % (name, who), ok, f.where(), detail=str([d[1:] for d in ds]), construct=f.ident,
+               text=name + " available delta")
+        if not ok:
+            continue
+        dn = [n for n in cfg.nodes if n.kind == "stmt" and n.ast is ds[0][0]][0]
+        if ask is None:
+            w = cfg.path_avoiding(cfg.entry.id, [n.id for n in cfg.nodes if n.kind == "exit"], [dn.id])
+            chk.ob("LOST-1", "%s lowers the available balls on every path" % name, w is None, f.where(), construct=f.ident, text=name + " unconditional")
+            continue
+        # path restoring: the ball is taken off exactly when a replacement is requested, and only when one was found on the path
+        rq = [(n, c) for n, c in cfg.calls_named(ask) if src(c.func.value) == "self"]
+        ok = len(rq) == 1
+        if ok:
+            g1, g2 = cfg.guards_at(dn.id), cfg.guards_at(rq[0][0].id)
+            found = [k for k, v in g1.items() if "find_available_ball_in_path" in k and v is True]
+            cancelled = [k for k, v in g1.items() if "cancel_path_if_target_is" in k and v is False]
+            ok = bool(found) and bool(cancelled) and canon_guard(g1) == canon_guard(g2) and cfg.must_pass(dn.id, [rq[0][0].id]) is None
+        chk.ob("LOST-1", "%s: one available ball is taken off exactly when a replacement was found on the path and is requested (path not cancelled)" % name,
+               ok, f.where(ds[0][0]), construct=f.ident, text=name + " restore pairing")
+        if ask == "eject":
+            t = kwarg(rq[0][1], "target") if rq else None
+            chk.ob("LOST-1", "the replacement is sent to the device that lost the ball", t is not None and src(t) == "target", f.where(), construct=f.ident,
+                   text=name + " replacement target")
+    # per-ball loops of the arrival callback
+    f = bd.methods["_balls_added_callback"]
+    chk.analysed(f)
+    loops = [x for x in walk_local(f.node) if isinstance(x, ast.For)]
+    n_ok = 0
+    for lp in loops:
+        calls = {call_attr(c) for c in ast.walk(lp) if isinstance(c, ast.Call)}
+        if calls & {"_setup_or_queue_eject_to_target", "setup_eject_chain"}:
+            ok = src(lp.iter) == "range(unclaimed_balls)"
+            chk.ob("LOST-1", "one eject is set up per unclaimed ball", ok, f.where(lp), detail=src(lp.iter), construct=f.ident, text="unclaimed loop")
+            n_ok += 1
+        elif "post_boolean" in calls:
+            ok = src(lp.iter) == "range(new_balls)"
+            chk.ob("LOST-1", "balls_available is announced once per new ball", ok, f.where(lp), detail=src(lp.iter), construct=f.ident, text="announce loop")
+            n_ok += 1
+    chk.ob("LOST-1", "the arrival callback ejects per unclaimed ball (drain and default branch) and announces per new ball", n_ok >= 3, f.where(),
+           detail="%d loops" % n_ok, construct=f.ident, text="arrival loops")
+    chk.floor("LOST-1", 14)
+
     # ------------------------------------------------------------- BOUND-3: entrance-counted devices never count beyond capacity
     from sa.helpers import feasible_paths
     ES = "mpf/devices/ball_device/entrance_switch_counter.py"
@@ -310,6 +384,13 @@ def battery():
         M("twin: path[-1]", BD, "        target = path[len(path) - 1]", "        target = path[-1]", None),
         M("twin: debug log moved", BC, "            if free_space <= incoming_balls:\n                self.debug_log(", "            if free_space <= incoming_balls:\n                self.info_log(", None),
         M("N missing balls reported once", "mpf/devices/ball_device/ball_count_handler.py", "                    for _ in range(missing_balls):\n                        await self.ball_device.lost_idle_ball()", "                    await self.ball_device.lost_idle_ball()", "DELTA-1"),
+        M("lost incoming ball not taken off the available balls", BD, "            self.available_balls -= 1\n            self.request_ball()", "            self.request_ball()", "LOST-1"),
+        M("lost ejected ball handed over only when the path could not be restored", BD, "            self.warning_log(\"Failed to restore the path. If you can reproduce this please report in the forum!\")\n\n        self.config['ball_missing_target'].add_missing_balls(1)\n        await self._balls_missing(1)\n\n    async def lost_incoming_ball", "            self.warning_log(\"Failed to restore the path. If you can reproduce this please report in the forum!\")\n            self.config['ball_missing_target'].add_missing_balls(1)\n\n        await self._balls_missing(1)\n\n    async def lost_incoming_ball", "LOST-1"),
+        M("replacement for a lost ejected ball sent to the default target", BD, "            self.eject(target=target)", "            self.eject()", "LOST-1"),
+        M("balls_available announced per unclaimed ball", BD, "        for _ in range(new_balls):\n            self.machine.events.post_boolean('balldevice_balls_available')", "        for _ in range(unclaimed_balls):\n            self.machine.events.post_boolean('balldevice_balls_available')", "LOST-1"),
+        M("drained balls ejected per new ball", BD, "                for _ in range(unclaimed_balls):\n                    self._setup_or_queue_eject_to_target(trough)", "                for _ in range(new_balls):\n                    self._setup_or_queue_eject_to_target(trough)", "LOST-1"),
+        M("idle loss handed over only in idle state", BD, "            self.warning_log(\"Ball disappeared while idle. This should not normally happen.\")\n        self.available_balls -= 1\n        self.config['ball_missing_target'].add_missing_balls(1)", "            self.warning_log(\"Ball disappeared while idle. This should not normally happen.\")\n            self.config['ball_missing_target'].add_missing_balls(1)\n        self.available_balls -= 1", "LOST-1"),
+        M("twin: lost ball warning reworded", BD, "Path to canceled. Assuming the ball jumped to %s.", "Path cancelled. Assuming the ball jumped to %s.", None),
     ]
 
 
